@@ -232,34 +232,7 @@ func runC07(r *Run) {
 			"without this rejection the statement's '"+s.what+"' inputs are accepted", found, "no setError call guarded by this condition")
 	}
 
-	// --- tables
-	asc, ok1 := r.byteSliceLiteral(pkgJCS, "asciiEscapes")
-	bin, ok2 := r.byteSliceLiteral(pkgJCS, "binaryEscapes")
-	want := map[int64]int64{'\\': '\\', '"': '"', 'b': '\b', 'f': '\f', 'n': '\n', 'r': '\r', 't': '\t'}
-	okTab := ok1 && ok2 && len(asc) == len(bin) && len(asc) == len(want)
-	if okTab {
-		for i := range asc {
-			if want[asc[i]] != bin[i] {
-				okTab = false
-			}
-		}
-	}
-	r.R.Check(okTab, P+".tables", "E7: asciiEscapes[i] ↔ binaryEscapes[i] are exactly the RFC 8259 §7 two-character escapes (\\\\ \\\" \\b \\f \\n \\r \\t), equal length", "jsoncanonicalizer.asciiEscapes/binaryEscapes", "pkg/internal/jsoncanonicalizer/jsoncanonicalizer.go",
-		"a mismatched pair mis-decodes or mis-encodes that escape; unequal lengths make the cross index panic", fmt.Sprintf("%v ↔ %v", asc, bin), fmt.Sprintf("ascii=%v binary=%v", asc, bin))
-	// control characters \u%04x
-	okU := false
-	if pk := r.P.Pkg(pkgJCS); pk != nil {
-		for _, file := range pk.Syntax {
-			ast.Inspect(file, func(n ast.Node) bool {
-				if bl, ok := n.(*ast.BasicLit); ok && bl.Kind == token.STRING && strings.Contains(bl.Value, `\\u%04x`) {
-					okU = true
-				}
-				return true
-			})
-		}
-	}
-	r.R.Check(okU, P+".tables.control", "constant: other control characters are written as \\u%04x (lower-case hex, four digits)", "jsoncanonicalizer.decorateString", "-", "RFC 8785 requires lower-case \\u00xx for the remaining control characters", "\\u%04x", "format not found")
-
+	r.checkEscapeTables(P)
 	// --- es6.switch
 	if f := r.fn(P, pkgJCS, "NumberToJSON"); f != nil {
 		ff := r.E.Facts(f, core.Ctx{})
@@ -316,6 +289,10 @@ func runC07(r *Run) {
 		r.R.Check(okFmt, P+".es6.switch", "E3 normal form with spec constants: fixed notation ('f') exactly under 1e-6 ≤ |x| < 1e21, exponent notation otherwise", core.FuncName(f), r.where(f),
 			"ECMAScript Number::toString switches notation at exactly these thresholds; other thresholds change the spelling of numbers and hence every hash over them", "'f' iff 1e-6 ≤ x < 1e21", "format selection not as prescribed")
 	}
+
+	// --- byte classes
+	r.checkByteClasses(P, tr, fns, setErr)
+	r.checkStringCodec(P, tr, fns, setErr, checkErr)
 
 	// --- number tokens
 	r.checkNumberRoute(P, fns)
@@ -525,7 +502,7 @@ func (r *Run) checkSortKey(P string, tr *ssa.Function, fns []*ssa.Function) {
 					switch c.Common().StaticCallee().String() {
 					case "(*container/list.List).InsertBefore":
 						for _, fc := range pf.At(c) {
-							if fc.Kind == "true" && fc.A.Op == "call" && fc.A.Name == "dyn" {
+							if fc.Kind == "true" && fc.A.Op == "call" && strings.HasPrefix(fc.A.Name, "dyn") {
 								okIns = true
 							}
 							if fc.Kind == "true" && strings.Contains(fc.A.String(), "lexicographicallyPrecedes") {
@@ -830,3 +807,35 @@ func (r *Run) checkUnitOrder(P string, lexFn *ssa.Function) {
 }
 
 var flipCmp = map[string]string{"==": "==", "!=": "!=", "<": ">", ">": "<", "<=": ">=", ">=": "<="}
+
+// checkEscapeTables: the two escape tables and the \u format (shared by C07 and C08).
+func (r *Run) checkEscapeTables(P string) {
+	// --- tables
+	asc, ok1 := r.byteSliceLiteral(pkgJCS, "asciiEscapes")
+	bin, ok2 := r.byteSliceLiteral(pkgJCS, "binaryEscapes")
+	want := map[int64]int64{'\\': '\\', '"': '"', 'b': '\b', 'f': '\f', 'n': '\n', 'r': '\r', 't': '\t'}
+	okTab := ok1 && ok2 && len(asc) == len(bin) && len(asc) == len(want)
+	if okTab {
+		for i := range asc {
+			if want[asc[i]] != bin[i] {
+				okTab = false
+			}
+		}
+	}
+	r.R.Check(okTab, P+".tables", "E7: asciiEscapes[i] ↔ binaryEscapes[i] are exactly the RFC 8259 §7 two-character escapes (\\\\ \\\" \\b \\f \\n \\r \\t), equal length", "jsoncanonicalizer.asciiEscapes/binaryEscapes", "pkg/internal/jsoncanonicalizer/jsoncanonicalizer.go",
+		"a mismatched pair mis-decodes or mis-encodes that escape; unequal lengths make the cross index panic", fmt.Sprintf("%v ↔ %v", asc, bin), fmt.Sprintf("ascii=%v binary=%v", asc, bin))
+	// control characters \u%04x
+	okU := false
+	if pk := r.P.Pkg(pkgJCS); pk != nil {
+		for _, file := range pk.Syntax {
+			ast.Inspect(file, func(n ast.Node) bool {
+				if bl, ok := n.(*ast.BasicLit); ok && bl.Kind == token.STRING && strings.Contains(bl.Value, `\\u%04x`) {
+					okU = true
+				}
+				return true
+			})
+		}
+	}
+	r.R.Check(okU, P+".tables.control", "constant: other control characters are written as \\u%04x (lower-case hex, four digits)", "jsoncanonicalizer.decorateString", "-", "RFC 8785 requires lower-case \\u00xx for the remaining control characters", "\\u%04x", "format not found")
+
+}
